@@ -1,0 +1,90 @@
+// Copyright 2020-2023 IOTA Stiftung
+// SPDX-License-Identifier: Apache-2.0
+
+//! Verification-only hooks (compiled only with `--cfg identity_rs_verif`).
+//!
+//! A deterministic simulator running on the current thread can install a [`Hooks`] table. The in-memory stores then
+//! (1) offer the simulator a scheduling point before they acquire their lock and inside their critical sections and
+//! (2) draw key identifiers and key material from the simulator instead of the OS, so that an execution is a pure
+//! function of the simulator's seed.
+//!
+//! When no table is installed on the calling thread every hook is a no-op and the original values are used.
+
+use core::future::Future;
+use core::pin::Pin;
+use core::task::Context;
+use core::task::Poll;
+use std::cell::RefCell;
+
+/// Callbacks installed by a simulator for the current thread.
+pub struct Hooks {
+  /// Asked at every scheduling point; returning `true` makes the calling future yield once.
+  pub should_yield: Box<dyn FnMut(&'static str) -> bool>,
+  /// Supplies the next key identifier (32 alphanumeric characters expected), or `None` to keep the random one.
+  pub next_key_id: Box<dyn FnMut() -> Option<String>>,
+  /// Supplies the next Ed25519 secret key seed, or `None` to keep the randomly generated key.
+  pub next_secret: Box<dyn FnMut() -> Option<[u8; 32]>>,
+}
+
+thread_local! {
+  static HOOKS: RefCell<Option<Hooks>> = const { RefCell::new(None) };
+}
+
+/// Installs `hooks` for the current thread, replacing any previous table.
+pub fn install(hooks: Hooks) {
+  HOOKS.with(|cell| *cell.borrow_mut() = Some(hooks));
+}
+
+/// Removes the hook table of the current thread.
+pub fn uninstall() {
+  HOOKS.with(|cell| *cell.borrow_mut() = None);
+}
+
+fn ask_yield(label: &'static str) -> bool {
+  HOOKS.with(|cell| match cell.try_borrow_mut() {
+    Ok(mut guard) => match guard.as_mut() {
+      Some(hooks) => (hooks.should_yield)(label),
+      None => false,
+    },
+    Err(_) => false,
+  })
+}
+
+/// Returns the simulator supplied key identifier, if any.
+pub fn next_key_id() -> Option<String> {
+  HOOKS.with(|cell| match cell.try_borrow_mut() {
+    Ok(mut guard) => guard.as_mut().and_then(|hooks| (hooks.next_key_id)()),
+    Err(_) => None,
+  })
+}
+
+/// Returns the simulator supplied secret key seed, if any.
+pub fn next_secret() -> Option<[u8; 32]> {
+  HOOKS.with(|cell| match cell.try_borrow_mut() {
+    Ok(mut guard) => guard.as_mut().and_then(|hooks| (hooks.next_secret)()),
+    Err(_) => None,
+  })
+}
+
+struct YieldOnce(bool);
+
+impl Future for YieldOnce {
+  type Output = ();
+
+  fn poll(mut self: Pin<&mut Self>, cx: &mut Context<'_>) -> Poll<()> {
+    if self.0 {
+      Poll::Ready(())
+    } else {
+      self.0 = true;
+      cx.waker().wake_by_ref();
+      Poll::Pending
+    }
+  }
+}
+
+/// A scheduling point: yields to the executor once if the installed simulator asks for it.
+pub async fn sched_point(label: &'static str) {
+  if ask_yield(label) {
+    YieldOnce(false).await
+  }
+}
